@@ -297,7 +297,7 @@ def kterm(scn) -> str:
 
 def model_term(d) -> str:
     if d.get("kind") == "ctor_alias":
-        return f"ctor_alias_out {nl(d['init'])} {d['x']}"
+        return f"ctor_copy_out {nl(d['init'])} {d['x']}"
     return f"model_out {kterm(d['scn'])} [{'; '.join(op_term(o) for o in d['ops'])}] {nl(d['init'])}"
 
 
@@ -375,7 +375,7 @@ def run(tier: str, seed: int, replay=None) -> int:
     rep.trusted.append("source pins pins/onto.json (pin set pins/sets/onto.json): the normalised source of the 57 methods the hand models Onto/Closure.v and Onto/Container.v mirror is compared on every run; an edit reopens the correspondence obligation")
     rep.assume = [
         "the field is written by its owner with fresh arguments (lists, sets, generators) or with itself for assignment / += / |=; "
-        "K_ctor_alias (another object's managed container given to a constructor, C16-d) is outside the fragment (known finding with a _refuted theorem)",
+        "no fragment exclusions: a constructor handed another object's managed container copies it (C16-d, fixed) and is replayed from its witness",
         "elements of SET-valued fields are pairwise different under == (Python's own set semantics go by ==, the symbol graph by identity); twins are generated for list fields only",
         "item assignment with an integer index or a step-1 slice whose value is a list or a generator",
         "remove / pop / clear / del are not in the property's list of writes (the graph never retracts)",
@@ -435,12 +435,20 @@ def run(tier: str, seed: int, replay=None) -> int:
         model_agrees = None
         if d.get("kind") == "ctor_alias":
             rep.count(json.dumps(d), True)
-            # Python semantics: p and q share the list (as plain dataclasses would); every element of p's field must be recorded for p
+            # q = C(f = p.f); q.f.append(x): every element of either field must be recorded for its owner, p keeps its contents,
+            # q holds p's contents plus x
             if set(im["p"]) - set(im["rec_p"]):
                 problems.append(f"elements {sorted(set(im['p']) - set(im['rec_p']))} are in p's field but were never recorded for p")
+            if set(im["q"]) - set(im["rec_q"]):
+                problems.append(f"elements {sorted(set(im['q']) - set(im['rec_q']))} are in q's field but were never recorded for q")
+            if im["p"] != d["init"] or im["q"] != d["init"] + [d["x"]]:
+                problems.append(f"contents: p {im['p']} q {im['q']}, expected p {d['init']} q {d['init'] + [d['x']]}")
             if model_ok:
-                model_agrees = (mo == [im["p"], [x for x in mo[1]], mo[2]] and sorted(set(mo[1])) == im["rec_p"]
-                                and sorted(set(mo[2])) == im["rec_q"] and im["p"] == im["q"])
+                model_agrees = (mo[0] == im["p"] and sorted(set(mo[1])) == im["rec_p"]
+                                and mo[2] == im["q"] and sorted(set(mo[3])) == im["rec_q"])
+                if not problems and not model_agrees:
+                    mism += 1
+                    rep.oblige("correspondence:model", False, f"constructor-copy model differs from the implementation on {json.dumps(d)}: model {mo} impl {im}")
         else:
             spec_tr = canon_trace([[c, e] for c, e in sp][1:], kind)
             impl_tr = canon_trace(im["trace"], kind)
